@@ -231,6 +231,15 @@ func workerMain() int {
 				rec.Trace = rec.Trace[:120]
 			}
 			out.Viol = append(out.Viol, rec)
+			// also keep it on disk at once: a later run in this process may die (a violation can
+			// poison process-wide library state), and the finding must survive that
+			if of := os.Getenv("VERIF_OUT"); of != "" {
+				if f, err := os.OpenFile(of+".viol", os.O_CREATE|os.O_APPEND|os.O_WRONLY, 0644); err == nil {
+					js, _ := json.Marshal(rec)
+					f.Write(append(js, '\n'))
+					f.Close()
+				}
+			}
 		}
 	}
 
